@@ -32,6 +32,7 @@ fn explain(error_reference: &str) -> String {
         "invalid_format_specifier" => "Found an invalid format specifier",
         "invalid_permission_format" => "Invalid permission format",
         "invalid_size_specifier" => "Invalid size specifier",
+        "size_out_of_range" => "Size is too large",
         "invalid_type_specifier" => "Found an invalid type specifier",
         "invalid_time_specifier" => "Found an invalid time specifier",
         "symbolic_permission_level" => "Found invalid symbolic permission level",
